@@ -175,8 +175,10 @@ def io_choice(repo: Repo, R):
     for q in ("ResolvePortRefs.create_source", "ResolvePortRefs.replace_noconn"):
         f = repo.func(F_PORTREFS, q)
         calls = [ast.unparse(c) for c in au.calls_in(f.node) if (dotted(c.func) or "") in ("io", "io_for_resolving", "io_for_checking")]
-        ok = calls == ["io_for_resolving(portref.inst.of)"]
-        R.check(ok, rule, key_of(f, "io-source"), f.site, f"{q} reads the child's ports through {calls} (expected io_for_resolving(portref.inst.of): the pre-flattening snapshot when the child was elaborated earlier)",
+        # one read, through io_for_resolving, of the target of the very reference whose port is looked up in it
+        lookups = shared.calls_matching(f.node, "io_for_resolving($R.inst.of).get($R.portname)")
+        ok = len(calls) == 1 and len(lookups) == 1
+        R.check(ok, rule, key_of(f, "io-source"), f.site, f"{q} reads the child's ports through {calls} (expected one io_for_resolving(<ref>.inst.of).get(<ref>.portname): the pre-flattening snapshot when the child was elaborated earlier)",
                 why="a no-connect or port reference on a bundle-valued port works when the child is fresh and fails (or resolves to a flattened scalar) when the child was elaborated or exported earlier")
     fio = repo.func(F_INSTANTIABLE, "io")
     a = fio.node.args.args[0].arg
